@@ -96,7 +96,7 @@ impl Check for C02 {
             driver,
             schedules,
             tape: Tape::random(rng, 24),
-            fuel: 3_000_000,
+            fuel: 400_000,
         }
     }
 
